@@ -261,7 +261,7 @@ func (g *gen) mutate(c *tcase, m string) {
 		// sum = 2^64 - 2 + d, d in 0..3  (2^64-1 fits, 2^64 and above do not)
 		t.Out[i].Coins = ^uint64(0) - others - 1 + uint64(r.Intn(4))
 	case "type":
-		t.Type = uint8(1 + r.Intn(255))
+		t.Type = []uint8{1, 1, 1, 2, 255, 128, uint8(1 + r.Intn(255))}[r.Intn(7)]
 	case "len":
 		switch r.Intn(4) {
 		case 0:
